@@ -30,6 +30,15 @@ class WriteTokensTransformer(Transformer_InPlace):
         self.tokens = tokens
         self.term_subs = term_subs
 
+    def _call_userfunc(self, tree, new_children=None):
+        # Rule and terminal names of the user's grammar are data here, never callback names
+        # (a rule called `transform` or `tokens` must not be dispatched to our own attributes)
+        children = new_children if new_children is not None else tree.children
+        return self.__default__(tree.data, children, tree.meta)
+
+    def _call_userfunc_token(self, token):
+        return token
+
     def __default__(self, data, children, meta):
         if not getattr(meta, 'match_tree', False):
             return Tree(data, children)
